@@ -31,7 +31,7 @@ type qNode struct {
 var (
 	ownStrFields  = []string{"s1", "s2"}
 	ownIntFields  = []string{"n1", "n2"}
-	ownStrVals    = []string{"x", "0", "true", "a", "with space", "ü"}
+	ownStrVals    = []string{"x", "0", "true", "a", "with space", "ü", "x|y", "a|b", "|", "x|y"}
 	ownStrOps     = []string{"sameas", "s==", "contains", "co", "startswith", "sw", "endswith", "ew"}
 	ownIntOps     = []string{"==", ">", ">=", "<", "<="}
 	ownAllFields  = map[string]bool{"s1": true, "s2": true, "n1": true, "n2": true, "b1": true, "o1": true, "a1": true}
@@ -49,7 +49,7 @@ func ownCond(r *rand.Rand) *qNode {
 		n := 2 + r.Intn(2)
 		vs := make([]string, n)
 		for i := range vs {
-			vs[i] = []string{"x", "0", "true", "a", "ü", "zz"}[r.Intn(6)]
+			vs[i] = []string{"x", "0", "true", "a", "ü", "zz", "x|y", "a|b"}[r.Intn(8)]
 		}
 		c.Field, c.Op, c.Val = ownStrFields[r.Intn(2)], "in", strings.Join(vs, ",")
 	case 7:
@@ -87,7 +87,7 @@ func ownTree(r *rand.Rand, depth int) *qNode {
 }
 
 func ownQuote(v string) string {
-	if strings.ContainsAny(v, " ") {
+	if strings.ContainsAny(v, " |") {
 		return `"` + v + `"`
 	}
 	return v
@@ -293,7 +293,8 @@ type ownQuery struct {
 	paging     bool // orderby / limit / offset follow: which of the matching records are returned is not judged
 }
 
-// parseOwnQuery accepts `query <db>:<prefix> where <printer output> [paging…]`; everything else is not judged.
+// parseOwnQuery accepts `query <db>:<prefix> where <printer output> [paging…]` and the plain `query <db>:<prefix>`
+// (condition: always true); everything else is not judged.
 func parseOwnQuery(text string) *ownQuery {
 	if !strings.HasPrefix(text, "query ") {
 		return nil
@@ -301,7 +302,12 @@ func parseOwnQuery(text string) *ownQuery {
 	rest := text[len("query "):]
 	i := strings.Index(rest, " where ")
 	if i < 0 {
-		return nil
+		// no where clause: every record of the database under the prefix is a record of the query
+		j := strings.IndexByte(rest, ':')
+		if j <= 0 || strings.ContainsAny(rest, " \"\\()\t\n\r") {
+			return nil
+		}
+		return &ownQuery{db: rest[:j], prefix: rest[j+1:], cond: &qNode{Kind: "and"}}
 	}
 	scope := rest[:i]
 	j := strings.IndexByte(scope, ':')
@@ -325,6 +331,14 @@ func parseOwnQuery(text string) *ownQuery {
 		q.paging = true
 	}
 	return q
+}
+
+// text: the query as the monitor read it (for messages).
+func (q *ownQuery) text() string {
+	if len(q.cond.Kids) == 0 {
+		return "query " + q.db + ":" + q.prefix
+	}
+	return "query " + q.db + ":" + q.prefix + " where " + q.cond.print(true)
 }
 
 // ---- meaning ------------------------------------------------------------------------------------------
